@@ -14,6 +14,14 @@ Theorem C09_methods : userIDHeaderMethods = ["Set"] /\ authorizationHeaderMethod
 Proof. repeat split; reflexivity. Qed.
 Print Assumptions C09_methods.
 
+(* ... and when: the identity header is set under the flag --forward-user-id alone, the credentials are removed under the
+   flag --strip-credentials alone - forwardRequest has no other condition (on the method, the path, other headers) in
+   front of either; the theorems below are about every request for that reason *)
+Theorem C09_unconditional :
+  forwardRequestConds = ["*debug"; "*forwardUserID"; "*stripCredentials"; "err != nil"; "*debug"; "responseForwarder.Close(); err != nil"]%string.
+Proof. reflexivity. Qed.
+Print Assumptions C09_unconditional.
+
 (* With user-ID forwarding on, for every header set the client supplied (forged,
    repeated, any casing - the wire parser canonicalises names) and every asserted
    identity, the handler chain sees exactly one identity value: the asserted one. *)
